@@ -254,7 +254,7 @@ func (p *Policy) sanitize(r io.Reader, w io.Writer) error {
 		case html.CommentToken:
 
 			// Comments are ignored by default
-			if p.allowComments {
+			if p.allowComments && !skipElementContent {
 				// But if allowed then write the comment out as-is
 				buff.WriteString(token.String())
 			}
